@@ -40,3 +40,10 @@ Definition is_max_run (s : list A) (a b : Z) : Prop :=
   ~ nonN_at s (a - 1) /\ ~ nonN_at s b.
 
 End Runs.
+
+(* ---- the pipeline's mathematical object ------------------------------------------------
+   K is the set of kept bases (non-N and in no exclude region).  A small gap is a maximal
+   stretch [a, b) of positions outside K, shorter than g, with a kept base on either side:
+   exactly what join_regions is asked to bridge. *)
+Definition small_gap (K : Z -> Prop) (g x : Z) : Prop :=
+  exists a b, a <= x < b /\ b - a < g /\ K (a - 1) /\ K b /\ forall y, a <= y < b -> ~ K y.
